@@ -336,6 +336,9 @@ class Dispatcher:
                 return -a
         if isinstance(n, ast.Constant) and isinstance(n.value, (int, float)) and not isinstance(n.value, bool) and float(n.value).is_integer():
             return Poly.const(int(n.value))
+        if isinstance(n, ast.IfExp):
+            # `A if <test> else B`: the test is decided by the operand classes of the case like any `if`
+            return self.ev(n.body if self.truth(n.test, env) else n.orelse, env)
         raise AnalysisError(f'{self.mod.relpath}:{getattr(n, "lineno", 0)}: expression not modelled in dispatch arm: `{ast.unparse(n)[:80]}`')
 
     def call(self, n: ast.Call, env: Dict[str, Any]) -> Any:
